@@ -7,3 +7,15 @@ def update(checks, pending):
         "Trusted: kernel flock semantics.", "5/C19")
     for k in ("C13", "C19"):
         pending.pop(k, None)
+
+_prev = update
+def update(checks, pending):
+    _prev(checks, pending)
+    checks["C07"] = ("dmgmon", "fault_enumeration", "enumerated damage injection on head segments; Recover/Check results compared with an independent reference parser of the damaged bytes",
+        "For every enumerated damage of every generated segment Recover kept exactly the reference parser's valid prefix and Check agreed with the reference verdict.",
+        "Trusted: harness/ref codec; file header intact or file empty.", "5/C07")
+    checks["C14"] = ("dmgmon", "fault_enumeration", "enumerated in-place damage of multi-segment logs; every read API judged against the clean baseline with the reference parser mapping damage to records",
+        "For every enumerated damage no call returned a wrong field, panicked or exceeded the allocation bound; calls touching a damaged record failed; unrelated calls were unchanged.",
+        "Trusted: harness/ref codec; index files intact; CRC-32C collisions ignored.", "5/C14")
+    for k in ("C07", "C14"):
+        pending.pop(k, None)
